@@ -4,7 +4,7 @@ import copy
 import itertools
 from .. import model, sweep, refs, codecs
 from ..runner import Result
-from ..bridge import T, build, quiet, monitor, extract, mt_equal, all_nodes, raw_leaves, cli_options
+from ..bridge import T, build, quiet, monitor, extract, mt_equal, all_nodes, raw_leaves, cli_options, build_any
 
 from trees import transform, treeoutput
 
@@ -104,7 +104,7 @@ def check_one(mtj, root_attach, order=None, rules=None):
                     'detail': '%s [input %s, root_attach=%s]' % (detail, model.mt_str(mt.root, mt.toks), root_attach),
                     'what': what})
     try:
-        t = build(mt, child_order=order)
+        t = build_any(mt, order)
         if root_attach:
             t = transform.root_attach(t)
         base = extract(t, sid=True)        # tree the rest of the pipeline starts from
@@ -338,7 +338,7 @@ def run_chunk(chunk):
                 idx += 1
                 mt = assign_heads(sh, choice, extra_hd=(idx % 3 == 0))
                 j = mt.to_json()
-                orders = (None, 'rev') if chunk.get('tier') == 'thorough' else ((None,) if idx % 2 else ('rev',))
+                orders = (None, 'rev', 'export') if chunk.get('tier') == 'thorough' else ((None, 'rev', 'export')[idx % 3],)
                 for ra, order in itertools.product((False, True), orders):
                     vs, disc = check_one(j, ra, order)
                     res.evals += 1
